@@ -46,6 +46,12 @@ def op_vr(self, a, targets):
     t = src.t
     d = a.get("depth", 0)
     nr = len(t.ranks)
+    vtwin = None
+    if a.get("twin") and all(_flat_ok(x) for x in src.shape):
+        try:
+            vtwin = copy.deepcopy(t)
+        except Exception:
+            vtwin = None
     if nr >= 4 and (kind.startswith("split") or kind in ("truediv", "floordiv", "unflatten")):
         raise Skip("deep enough")
     try:
@@ -180,6 +186,8 @@ def op_vr(self, a, targets):
     self.snaps.pop(dst, None)
     targets.add(dst)
     self.probe("vr_ok:" + kind)
+    if vtwin is not None:
+        _twin_differential(self, src, vtwin, (), kind, dict(a, slot=a["src"]), family="vr")
     return {"kind": kind, "depth_out": len(r.ranks)}
 
 
@@ -435,7 +443,7 @@ def _behaviour(t):
     return out
 
 
-def _twin_differential(self, sl, twin, pre, kind, a):
+def _twin_differential(self, sl, twin, pre, kind, a, family="ro"):
     """C10, hidden state: a read-only operation leaves nothing behind that a later mutation could expose.
     `twin` is a deep copy taken before the operation; a deep copy taken after it must behave the same once
     both have grown by the same element."""
@@ -458,7 +466,7 @@ def _twin_differential(self, sl, twin, pre, kind, a):
             res.append(_behaviour(tt))
         except Exception as e:
             res.append("raised " + type(e).__name__)
-    self.probe("twin_differential")
+    self.probe("twin_differential" if family == "ro" else "twin_differential_vr")
     if res[0] != res[1]:
         diff = ""
         if isinstance(res[0], list) and isinstance(res[1], list):
@@ -466,7 +474,8 @@ def _twin_differential(self, sl, twin, pre, kind, a):
                 if x != y:
                     diff = f": untouched copy {repr(x)[:90]} vs copy taken after the operation {repr(y)[:90]}"
                     break
-        self.V("C10", "C10.read-only-leaves-no-hidden-state", "ro_" + kind,
+        self.V("C10", "C10.read-only-leaves-no-hidden-state" if family == "ro" else "C10.operand-keeps-no-hidden-state",
+               family + "_" + kind,
                f"after {kind} on slot {a['slot']} at {pre}, a copy of the tensor grown by {point} behaves differently "
                f"from a copy taken before the operation and grown the same way" + diff)
 
@@ -544,7 +553,9 @@ def gen_vr(self, g):
             pre = self.existing_prefix(g, sl, g.randrange(1, nr))
             if pre is not None:
                 a["prefix"] = enc_point(pre)
-    elif kind in ("fadd", "fmul"):
+    if g.random() < 0.25:
+        a["twin"] = True
+    if kind in ("fadd", "fmul"):
         pre = self.existing_prefix(g, sl, nr - 1)
         if pre is None:
             return None
